@@ -54,6 +54,15 @@ func c01Unit(name string, lvl int) core.Unit {
 			r.Internalf("C01 %s: universe too small (%d)", name, n)
 			return
 		}
+		// the values of a first and of a second parse of the same text are Compare-equal
+		for i := range u.Vers0 {
+			c1, p1 := eco.SafeCompare(u.Vers0[i], u.Vers[i])
+			c2, p2 := eco.SafeCompare(u.Vers[i], u.Vers0[i])
+			if p1 != nil || p2 != nil || c1 != 0 || c2 != 0 {
+				r.Violate(core.Violation{Property: "C01", Scope: name, Kind: "reflexive-across-parses", Inputs: []string{u.Strs[i], u.Strs[i]},
+					Expected: "two parses of one text compare equal (Compare(a,a)=0)", Got: fmt.Sprintf("Compare(first,second)=%d Compare(second,first)=%d", c1, c2)})
+			}
+		}
 		m := order.Build(u.Vers)
 		r.Add("compare_calls", m.Calls)
 		r.Add("pairs", int64(n)*int64(n))
@@ -195,6 +204,9 @@ func init() {
 				if ab < -1 || ab > 1 || ba < -1 || ba > 1 || aa != 0 || ab != -ba {
 					return true, d
 				}
+				if len(v.Inputs) == 2 && v.Inputs[0] == v.Inputs[1] && ab != 0 {
+					return true, d + " (two parses of one text)"
+				}
 				return false, d
 			}
 		},
@@ -208,7 +220,7 @@ func init() {
 				"triples_decided":               r.Counters["triples_decided"],
 			}
 		},
-		Rule:        "per ecosystem: every candidate string from the token grammar, from all-strings<=L over the lexical alphabet, from the leading-zero family and from the one-slot substitution closure of the ecosystem's typical shapes (each digit run x 22 numeric tokens incl. 2^16/2^32/2^53/2^64 neighbours, each letter run x 32 words, each separator x 9 separators, appended tokens) is parsed; all ordered pairs of accepted strings are compared with the real Compare (both argument orders); sign range/reflexivity/antisymmetry per pair; transitivity for all N^3 triples by the rank criterion. states = candidate strings enumerated; transitions = generator token appends + Compare calls. distinct_nontrivial = number of ordered triples of pairwise different equivalence classes (c*(c-1)*(c-2) per ecosystem), a lower bound on triples that are pairwise distinct and not all equal.",
+		Rule:        "per ecosystem: every candidate string from the token grammar, from all-strings<=L over the lexical alphabet, from the leading-zero family and from the one-slot substitution closure of the ecosystem's typical shapes (each digit run x 22 numeric tokens incl. 2^16/2^32/2^53/2^64 neighbours, each letter run x 32 words, each separator x 9 separators, appended tokens) is parsed; all ordered pairs of accepted strings are compared with the real Compare (both argument orders); sign range/reflexivity/antisymmetry per pair (reflexivity also between the values of two separate parses of one text, and all comparisons use the second parse); transitivity for all N^3 triples by the rank criterion. states = candidate strings enumerated; transitions = generator token appends + Compare calls. distinct_nontrivial = number of ordered triples of pairwise different equivalence classes (c*(c-1)*(c-2) per ecosystem), a lower bound on triples that are pairwise distinct and not all equal.",
 		Assumptions: []string{"strings outside the enumerated grammar/alphabet bounds are not covered", "alpm: triples mixing versions with and without an explicit pkgrel are excluded as the property states (three groups: no '-', ends in -digits, other '-')"},
 	})
 }
